@@ -617,7 +617,7 @@ var (
 		`if mesg\.Fields\[i\]\.Num > (\d+) \|\| mesg\.Fields\[i\]\.Name == factory\.NameUnknown \{ unknownFields = append\(unknownFields, mesg\.Fields\[i\]\) continue \} ` +
 		`(?:if mesg\.Fields\[i\]\.Num < (\d+) && mesg\.Fields\[i\]\.IsExpandedField \{ pos := mesg\.Fields\[i\]\.Num / 8 state\[pos\] \|= 1 << \(mesg\.Fields\[i\]\.Num - \(8 \* pos\)\) \} )?` +
 		`vals\[mesg\.Fields\[i\]\.Num\] = mesg\.Fields\[i\]\.Value \} unknownFields = sliceutil\.Clone\(unknownFields\) \*arr = \[poolsize\]proto\.Field\{\} pool\.Put\(arr\) (developerFields = mesg\.DeveloperFields )?\}$`)
-	reToPrefix  = regexp.MustCompile(`^if options == nil \{ options = defaultOptions \} else if options\.Factory == nil \{ options\.Factory = factory\.StandardFactory\(\) \} fac := options\.Factory arr := pool\.Get\(\)\.\(\*\[poolsize\]proto\.Field\) fields := arr\[:0\] mesg := proto\.Message\{Num: typedef\.(MesgNum\w+)\}$`)
+	reToPrefix  = regexp.MustCompile(`^(?:if options == nil \{ options = defaultOptions \} else if options\.Factory == nil \{ options\.Factory = factory\.StandardFactory\(\) \} fac := options\.Factory|if options == nil \{ options = defaultOptions \} fac := options\.Factory if fac == nil \{ fac = factory\.StandardFactory\(\) \}) arr := pool\.Get\(\)\.\(\*\[poolsize\]proto\.Field\) fields := arr\[:0\] mesg := proto\.Message\{Num: typedef\.(MesgNum\w+)\}$`)
 	toSuffixA   = `for i := range m.UnknownFields { fields = append(fields, m.UnknownFields[i]) } mesg.Fields = make([]proto.Field, len(fields)) copy(mesg.Fields, fields) *arr = [poolsize]proto.Field{} pool.Put(arr) `
 	toSuffixB   = `return mesg`
 	toSuffixD   = `mesg.DeveloperFields = m.DeveloperFields `
@@ -1100,6 +1100,9 @@ func (e *mdEnv) translateFile(file string, f *ast.File) (*mdSpec, error) {
 	first := -1
 	for i, s := range tl {
 		if _, ok := s.(*ast.IfStmt); ok && i > 0 {
+			if strings.HasPrefix(e.stmtsSrc(tl[i:i+1]), "if fac == nil {") { // the factory default, part of the prefix
+				continue
+			}
 			first = i
 			break
 		}
